@@ -32,6 +32,11 @@ struct ReplayDoc {
     }
     return true;
   }
+  // element k of a byte array captured as name[k] / name[kl]
+  bool elem(const std::string& arr, unsigned long long k, unsigned char& out) const {
+    for (const char* suf : {"", "l", "ul", "u"}) { std::string key = arr + "[" + std::to_string(k) + suf + "]"; if (has(key)) { out = (unsigned char)u64(key); return true; } }
+    return false;
+  }
   bool has(const std::string& n) const { return bin.count(n) && !bin.at(n).empty(); }
   uint64_t u64(const std::string& n) const { uint64_t v = 0; auto it = bin.find(n); if (it == bin.end()) return 0; for (char c : it->second) v = (v << 1) | (c == '1'); return v; }
   int64_t i64(const std::string& n) const { auto it = bin.find(n); if (it == bin.end() || it->second.empty()) return 0; uint64_t v = u64(n); size_t w = it->second.size(); if (w < 64 && it->second[0] == '1') v |= ~0ULL << w; return (int64_t)v; }
